@@ -160,7 +160,17 @@ Plan genBuild(const std::string& prop, int tier, uint64_t batchSeed, uint64_t id
                 op.set("wl1", static_cast<int64_t>(r.below(16))).set("wl2", static_cast<int64_t>(r.below(70)));
             if (r.chance(1, 4))
                 op.set("wcut", r.range(0, static_cast<int64_t>(wire::fixedSize(static_cast<wire::Kind>(c))) + 2));
+            else if (r.chance(1, 2))
+            {
+                // a valid but non-canonical image: one byte of the variable part flipped (pad bytes, terminators), surplus bytes
+                if (r.chance(1, 2))
+                    op.set("wpo", static_cast<int64_t>(wire::fixedSize(static_cast<wire::Kind>(c))) + r.range(0, 40)).set("wpx", 1 + static_cast<int64_t>(r.below(255)));
+                if (r.chance(1, 2))
+                    op.set("wextra", r.range(1, 9));
+            }
         }
+        if (r.chance(1, 6))
+            op.set("same", 1);
         if (r.chance(1, 2) || prevN[oi] < 0)
             op.set("hdr", 1).set("hseed", static_cast<int64_t>(r.next() >> 1));
         int64_t hi;
@@ -385,6 +395,23 @@ Plan genStatus(const std::string& prop, int tier, uint64_t batchSeed, uint64_t i
                         break;
                 }
             }
+        }
+        else if (sel < 66)
+        {
+            // Status::update with a packet assembled through the API instead of decoded from the wire
+            Item& op = g.addOp(OP_STATUPD, -1, 0);
+            const size_t di = r.below(nDev);
+            const bool isIf = !ifs.empty() && r.chance(2, 3);
+            op.set("dev", devs[di]).set("stream", static_cast<int64_t>(r.below(3))).set("id", g.msgId()).set("ts", static_cast<int64_t>(g.pickTs()));
+            op.set("ifid", static_cast<int64_t>(r.below(1000))).set("flags", g.pickFlags()).set("build", r.chance(2, 3) ? 2 : 0);
+            if (isIf)
+                op.set("kind", wire::K_IFSTAT).set("len", static_cast<int64_t>(minLenOf(wire::K_IFSTAT)) + r.range(0, 30)).set("pifid", ifs[r.below(ifs.size())]);
+            else if (r.chance(3, 4))
+                op.set("kind", wire::K_CMSTAT).set("len", static_cast<int64_t>(minLenOf(wire::K_CMSTAT)) + r.range(0, 60));
+            else
+                op.set("kind", 0).set("mtype", r.pick<int64_t>({3, 2, 0xFF, 1})).set("ptype", r.pick<int64_t>({3, 4, 1, 2})).set("len", r.range(1, 60));
+            if (r.chance(1, 3))
+                op.set("p1o", r.chance(1, 2) ? 25 : static_cast<int64_t>(r.below(40))).set("p1v", static_cast<int64_t>(r.below(256)));  // 4+25 = the interface status byte
         }
         else if (sel < 70)
         {
